@@ -229,6 +229,10 @@ B1EQ3T0 = _s([0, 3, 2, 0, 3, 0], [1, 1, 0, 1, 1, 0])      # B[1] = 3 T[0]: a 2-1
 # by units (all sums stay below 2**53, hence exact)
 B5T5HUGE = _s([0, 1, 1, 0, 1, 2 ** 40], [1, 1, 0, 1, 1, 2 ** 40])
 
+# a huge constant part (2**20 per pair unranked together) AND tiny units (2**-11): relative differences ~1e-10,
+# absolute differences ~5e-4, improvements below BioConsert's 0.001 threshold
+HUGE_TINY = _s([0, TINY, TINY, 0, TINY, 2 ** 20], [TINY, TINY, 0, TINY, TINY, 2 ** 20])
+
 SCHQ = [
     ('unifying', UNIFYING), ('unifying_p05', UNIFYING_05), ('induced', INDUCED), ('induced_p05', INDUCED_05),
     ('pseudo', PSEUDO), ('pseudo_p05', PSEUDO_05), ('extended', EXTENDED), ('unifying_x3', UNIFYING_X3),
